@@ -274,7 +274,7 @@ func (e *executor) execCall(fr *frame, st *State, in *Instr) error {
 		return nil
 	}
 	e.res.HelpersUsed[name] = true
-	cp := callProbe{kind: name, pc: st.pc, desc: e.descr(fr, tagOf(in)), ghost: e.mute > 0}
+	cp := callProbe{kind: name, pc: st.pc, desc: e.descr(fr, tagOf(in)), ghost: e.ghost > 0}
 	switch name {
 	case "bpf_map_lookup_elem":
 		mi, err := e.mapOfPtr(args[0])
@@ -562,10 +562,12 @@ func (e *executor) callSpec(fr *frame, f *Function, post, pre *State, args []*Va
 			}
 		}
 		e.mute++
+		e.ghost++
 		savedCur, savedIters := fr.cur, fr.iters
 		rv2, out2, err := e.execFunc(f, args2, st2, path+"second/", false)
 		fr.cur, fr.iters = savedCur, savedIters
 		e.mute--
+		e.ghost--
 		if err != nil {
 			return err
 		}
